@@ -1,5 +1,6 @@
 import OV.Model.Index
 import OV.Lemmas.Index
+import OV.Lemmas.IndexPlan
 /-!
 # C11 — tensor indexing and slicing mean what they mean in NumPy
 
@@ -142,15 +143,15 @@ theorem graph_axis_refines_numpy_partial (c : Comp) (srcs : List Nat) (a : AxisM
     simp only [graphAxisSlicePath, scalar_as_slice] at h
     simp only [numpyAxis]
     by_cases hm1 : i = -1
-    · simp [hm1] at h
+    · simp [hm1, single?, Functor.map, Except.map] at h
     · simp only [hm1, if_false] at h
       cases hn : normIdx srcs.length i with
-      | none => simp [hn] at h
+      | none => simp [hn, single?, Functor.map, Except.map] at h
       | some k =>
         simp only [hn] at h ⊢
         cases hk : srcs[k]? with
-        | none => simp [hk] at h
-        | some s => simpa [hk] using h
+        | none => simp [hk, single?, Functor.map, Except.map] at h
+        | some s => simpa [hk, single?, Functor.map, Except.map] using h
   | slice lo hi st =>
     have hstep : ∀ step, (st.val?).getD 1 = step → step ≠ 0 →
         onnxSliceList srcs (convBounds lo.val? hi.val? step).1 (convBounds lo.val? hi.val? step).2 step
@@ -158,26 +159,175 @@ theorem graph_axis_refines_numpy_partial (c : Comp) (srcs : List Nat) (a : AxisM
       intro step hs hne
       exact slice_list_conv_eq_numpy_partial srcs _ _ step hlen hne
         (fun hneg x hx => hD22 lo hi st rfl (by rw [hs]; exact hneg) x hx)
-    cases st with
-    | dyn v => simp [graphAxisSlicePath] at h
-    | none =>
+    simp only [graphAxisSlicePath] at h
+    by_cases hskip : lo = .none ∧ hi = .none ∧ st = .none
+    · simp only [hskip, and_self, if_true] at h
+      obtain ⟨rfl, rfl, rfl⟩ := hskip
       have e : (Bnd.none).val? = none := rfl
-      simp only [graphAxisSlicePath, numpyAxis, e, Option.getD] at h ⊢
-      rw [hstep 1 rfl (by decide)] at h
+      simp only [numpyAxis, e, Option.getD]
+      rw [pySliceList_full]
       exact h
-    | const v =>
-      have e : (Bnd.const v).val? = some v := rfl
-      simp only [graphAxisSlicePath, numpyAxis, e, Option.getD] at h ⊢
-      by_cases hv : v = 0
-      · simp [hv] at h
-      · have hb : (v == 0) = false := by simpa using hv
-        simp only [hb] at h ⊢
-        rw [hstep v rfl hv] at h
+    · simp only [hskip, if_false] at h
+      cases st with
+      | dyn v => simp at h
+      | none =>
+        have e : (Bnd.none).val? = none := rfl
+        simp only [numpyAxis, e, Option.getD] at h ⊢
+        rw [hstep 1 rfl (by decide)] at h
         exact h
+      | const v =>
+        have e : (Bnd.const v).val? = some v := rfl
+        simp only [numpyAxis, e, Option.getD] at h ⊢
+        by_cases hv : v = 0
+        · simp [hv] at h
+        · have hb : (v == 0) = false := by simpa using hv
+          simp only [hb] at h ⊢
+          rw [hstep v rfl hv] at h
+          exact h
 
 example : graphAxisSlicePath (.slice (.const 1) .none (.const 2)) [0, 1, 2, 3, 4] = .ok (.pick [1, 3]) := by decide
 example : graphAxisSlicePath (.int (-2)) [0, 1, 2] = .ok (.drop 1) ∧
     graphAxisSlicePath (.int (-1)) [0, 1, 2] = .error .indexError := by decide
+
+/-- **Whole expressions, Slice(+Squeeze) path.**  For every index expression made of constant
+components (`:`, Python ints, slices with constant bounds — any number of them, any rank, any
+dimension sizes below the int64 sentinel, including 0) for which the converter takes its
+Slice path: if the translated graph returns a tensor, NumPy returns the same tensor.  The only
+hypothesis beyond the code's own case split is the D22 one (a negative-step slice has no explicit
+start below `-d`). -/
+theorem graph_index_slicepath_correct_partial (comps : List Comp) (shape : List Nat) (r : View)
+    (hbasic : ∀ c ∈ comps, c.basic = true)
+    (hlen : comps.length ≤ shape.length)
+    (hdims : ∀ d ∈ shape, (d : Int) < maxint)
+    (hD22 : ∀ (j d : Nat) (lo hi st : Bnd), comps[j]? = some (.slice lo hi st) → shape[j]? = some d →
+        (st.val?).getD 1 < 0 → ∀ x, lo.val? = some x → -(d : Int) ≤ x)
+    (huse : useSlice comps = true)
+    (h : graphIndex comps shape = .ok r) : numpyIndex comps shape = .ok r := by
+  -- 1. shape of the plan
+  have hns : nonScalarsOf comps = [] :=
+    filter_zipIdx_none (fun c => c.kind == Kind.nonScalar) comps 0
+      (fun c hc => basic_kind_ne_nonScalar c (hbasic c hc))
+  unfold graphIndex planGraph at h
+  rw [huse] at h
+  by_cases hempty : ((slicedOf comps).isEmpty && (scalarsOf comps).isEmpty && (nonScalarsOf comps).isEmpty) = true
+  · rw [if_pos hempty] at h; simp [bind, Except.bind] at h
+  rw [if_neg hempty] at h
+  simp only [if_true] at h
+  by_cases hnone : ((sliceEntriesOf comps).any Option.isNone) = true
+  · rw [if_pos hnone] at h; simp [bind, Except.bind] at h
+  rw [if_neg hnone, hns] at h
+  simp only [List.filterMap_nil, List.append_nil, bind, Except.bind] at h
+  -- 2. lookups
+  have hE : ∀ j c, comps[j]? = some c →
+      ((sliceEntriesOf comps).filterMap id).find? (fun e => e.axis == 0 + j) = entryOf c (0 + j) := by
+    intro j c hj
+    simp only [sliceEntriesOf, List.filterMap_map, List.map_append, List.filterMap_append, Nat.zero_add,
+      List.find?_append, slicedOf, scalarsOf]
+    have e1 := find_entries_zipIdx (fun c => c.kind == Kind.sliced) comps 0 j
+    have e2 := find_entries_zipIdx (fun c => c.kind == Kind.scalar) comps 0 j
+    simp only [Nat.zero_le, if_true, Nat.sub_zero, hj] at e1 e2
+    have e1' : (List.filterMap (id ∘ fun p => entryOf p.1 p.2)
+        (List.filter (fun p => p.1.kind == Kind.sliced) comps.zipIdx)).find? (fun e => e.axis == j)
+        = if (c.kind == Kind.sliced) = true then entryOf c j else none := e1
+    have e2' : (List.filterMap (id ∘ fun p => entryOf p.1 p.2)
+        (List.filter (fun p => p.1.kind == Kind.scalar) comps.zipIdx)).find? (fun e => e.axis == j)
+        = if (c.kind == Kind.scalar) = true then entryOf c j else none := e2
+    rw [e1', e2']
+    have hb := hbasic c (List.mem_of_getElem? hj)
+    cases c with
+    | tScalar v => simp [Comp.basic] at hb
+    | tVec v => simp [Comp.basic] at hb
+    | full => rfl
+    | int i => rfl
+    | slice lo hi st =>
+      by_cases hskip : lo = .none ∧ hi = .none ∧ st = .none
+      · obtain ⟨rfl, rfl, rfl⟩ := hskip
+        rfl
+      · have hk : (Comp.slice lo hi st).kind = Kind.sliced := by
+          cases lo <;> cases hi <;> cases st <;> first | rfl | (exfalso; exact hskip ⟨rfl, rfl, rfl⟩)
+        rw [hk]
+        cases hent : entryOf (Comp.slice lo hi st) j <;> rfl
+  have hE' : ∀ j, comps.length ≤ j →
+      ((sliceEntriesOf comps).filterMap id).find? (fun e => e.axis == 0 + j) = none := by
+    intro j hj
+    simp only [sliceEntriesOf, List.filterMap_map, List.map_append, List.filterMap_append, Nat.zero_add,
+      List.find?_append, slicedOf, scalarsOf]
+    have e1 := find_entries_zipIdx (fun c => c.kind == Kind.sliced) comps 0 j
+    have e2 := find_entries_zipIdx (fun c => c.kind == Kind.scalar) comps 0 j
+    have hnone : comps[j]? = none := List.getElem?_eq_none hj
+    simp only [Nat.zero_le, if_true, Nat.sub_zero, hnone] at e1 e2
+    have e1' : (List.filterMap (id ∘ fun p => entryOf p.1 p.2)
+        (List.filter (fun p => p.1.kind == Kind.sliced) comps.zipIdx)).find? (fun e => e.axis == j) = none := e1
+    have e2' : (List.filterMap (id ∘ fun p => entryOf p.1 p.2)
+        (List.filter (fun p => p.1.kind == Kind.scalar) comps.zipIdx)).find? (fun e => e.axis == j) = none := e2
+    rw [e1', e2']; rfl
+  have hS : ∀ j c, comps[j]? = some c →
+      ((scalarsOf comps).map (fun p => p.2)).contains (0 + j) = c.isInt := by
+    intro j c hj
+    have := contains_zipIdx (fun c => c.kind == Kind.scalar) comps 0 j
+    simp only [Nat.zero_le, if_true, Nat.sub_zero, hj] at this
+    simp only [scalarsOf, Nat.zero_add]
+    rw [this]
+    have hb := hbasic c (List.mem_of_getElem? hj)
+    cases c with
+    | tScalar v => simp [Comp.basic] at hb
+    | tVec v => simp [Comp.basic] at hb
+    | full => rfl
+    | int i => rfl
+    | slice lo hi st => cases lo <;> cases hi <;> cases st <;> rfl
+  have hS' : ∀ j, comps.length ≤ j → ((scalarsOf comps).map (fun p => p.2)).contains (0 + j) = false := by
+    intro j hj
+    have := contains_zipIdx (fun c => c.kind == Kind.scalar) comps 0 j
+    have hnone : comps[j]? = none := List.getElem?_eq_none hj
+    simp only [Nat.zero_le, if_true, Nat.sub_zero, hnone] at this
+    simp only [scalarsOf, Nat.zero_add]
+    exact this
+  -- 3. run the plan
+  have hax : axiswise graphAxisSlicePath comps shape = .ok r := by
+    by_cases hsq : ((scalarsOf comps).map (fun p => p.2)).isEmpty = true
+    · -- no Squeeze
+      rw [if_pos hsq] at h
+      have hrun : opSlice ((sliceEntriesOf comps).filterMap id) (View.init shape) = .ok r := by
+        cases hsl : opSlice ((sliceEntriesOf comps).filterMap id) (View.init shape) with
+        | error e => simp [runPlan, List.foldlM, runOp, hsl, bind, Except.bind] at h
+        | ok v1 => simpa [runPlan, List.foldlM, runOp, hsl, bind, Except.bind, pure, Except.pure] using h
+      obtain ⟨hz, hr⟩ := opSlice_ok _ _ _ hrun
+      have hSnil : (scalarsOf comps).map (fun p => p.2) = [] := by simpa using hsq
+      rw [hSnil] at hS hS'
+      refine slice_squeeze_axiswise _ [] comps shape 0 r hlen hbasic hz hE hE' hS hS' ?_
+      rw [squeeze_go_nil, hr]
+    · rw [if_neg hsq] at h
+      cases hsl : opSlice ((sliceEntriesOf comps).filterMap id) (View.init shape) with
+      | error e => simp [runPlan, List.foldlM, runOp, hsl, bind, Except.bind] at h
+      | ok v1 =>
+        have hsqz : opSqueeze ((scalarsOf comps).map (fun p => p.2)) v1 = .ok r := by
+          cases hq : opSqueeze ((scalarsOf comps).map (fun p => p.2)) v1 with
+          | error e => simp [runPlan, List.foldlM, runOp, hsl, hq, bind, Except.bind] at h
+          | ok v2 => simpa [runPlan, List.foldlM, runOp, hsl, hq, bind, Except.bind, pure, Except.pure] using h
+        obtain ⟨hz, hr⟩ := opSlice_ok _ _ _ hsl
+        have hgo := opSqueeze_ok _ _ _ hsqz
+        rw [hr] at hgo
+        exact slice_squeeze_axiswise _ _ comps shape 0 r hlen hbasic hz hE hE' hS hS' hgo
+  -- 4. axis by axis into NumPy
+  have hnp : axiswise numpyAxis comps shape = .ok r := by
+    refine axiswise_mono graphAxisSlicePath numpyAxis comps shape r ?_ hax
+    intro j c d a hc hd hg
+    refine graph_axis_refines_numpy_partial c (List.range d) a ?_ ?_ hg
+    · simp only [List.length_range]; exact hdims d (List.mem_of_getElem? hd)
+    · intro lo hi st hcs hneg x hx
+      subst hcs
+      simp only [List.length_range]
+      exact hD22 j d lo hi st hc hd hneg x hx
+  -- 5. NumPy's guards do not fire on constant components
+  unfold numpyIndex
+  rw [if_neg (by omega)]
+  have hv : comps.filter Comp.isVec = [] := filter_none _ _ (fun c hc => basic_not_vec c (hbasic c hc))
+  rw [hv, if_neg (by simp), needsTranspose_basic comps hbasic]
+  simpa using hnp
+
+example : useSlice [.int 1, .full, .slice .none (.const (-1)) (.const 2)] = true ∧
+    graphIndex [.int 1, .full, .slice .none (.const (-1)) (.const 2)] [2, 3, 4]
+      = .ok [.drop 1, .pick [0, 1, 2], .pick [0, 2]] := by decide
 
 /-- Whole expressions, full statement: "if the translated graph returns a tensor, it is NumPy's".
 **Refuted** on the model of the unchanged converter by `A[i, 0]` (`i` a rank-0 tensor holding 1,
@@ -218,8 +368,10 @@ theorem all_full_refused (n : Nat) : planGraph (List.replicate n .full) = .error
     induction n generalizing k with
     | zero => rfl
     | succ n ih => simp [List.replicate_succ, List.zipIdx_cons, hf, ih]
-  simp only [planGraph]
-  rw [h 0 _ (by intro m; rfl), h 0 _ (by intro m; rfl), h 0 _ (by intro m; rfl)]
-  rfl
+  have h1 : slicedOf (List.replicate n .full) = [] := h 0 _ (by intro m; rfl)
+  have h2 : scalarsOf (List.replicate n .full) = [] := h 0 _ (by intro m; rfl)
+  have h3 : nonScalarsOf (List.replicate n .full) = [] := h 0 _ (by intro m; rfl)
+  unfold planGraph
+  rw [if_pos (by rw [h1, h2, h3]; rfl)]
 
 end OV.Props.C11
